@@ -102,7 +102,9 @@ PROPS = {
                 cone=["Model/Builder.v", "Proofs/BuilderP.v", "Model/Engine.v", "Proofs/Refine.v"],
                 rule="random chains (1-8 calls) of Not / built-in tests / TestFunc / Required / Optional / Default / Catch / PostTransform with random Message, IssueCode and IssuePath options on String, Int, Int64, Float64, Bool and Time schemas (each schema type has its own copy of the builder methods; double and dangling Not, Not before non-test calls, the same modifier twice with and without options), executed on random subjects in Parse and Validate; the Coq side folds the same chain into a schema and runs the engine; plus a shared-schema-object probe against independent copies; distinct = distinct (call-kind sequence, outcome)",
                 families=[dict(name="builder", family="builder", profile="default", quick=1500, thorough=30000, shard=150,
-                               tags=["nil", "issues", "dtype", "params", "msg", "dest", "calls", "panic", "share"])]),
+                               tags=["nil", "issues", "dtype", "params", "msg", "dest", "calls", "panic", "share"]),
+                          # WithCoercer acts on its own schema only: on primitives, through Ptr, on the slice itself, next to global overrides
+                          eng("coercers", "C03", 500, 8000, ["nil", "issues", "dest", "panic"])]),
     "C18": dict(theorems=["C18_float_to_int_exact", "C18_nan_inf_rejected", "C18_float_out_of_range_rejected", "C18_int_from_int_exact", "C18_int_in_range",
                           "C18_int32_in_range", "C18_int32_accepts", "C18_int32_rejects", "C18_int64_accepts", "C18_f64_identity",
                           "C18_f32_rounds_never_to_infinity", "C18_f32_overflow_rejected"],
